@@ -644,3 +644,84 @@ Proof.
   - exact (proj1 (proj2 (proj2 (proj2 (proj2 (proj2 C09X_nonvacuous)))))).
 Qed.
 Print Assumptions C09X_nonvacuous_exts.
+
+(* ---- where loosely valid graphs come from: C03's graph_ok and the outputs of compress_kmers (C01) ---------------- *)
+(* [graph_ok] (Spec/EdgeSpec.v, C03: well-formed nodes, distinct ends, resolvable extensions answered by a return
+   extension - the hypothesis of C03_edges_symmetric, checked on every implementation graph by chk_graph_ok) implies
+   [rvalid_loose] as soon as the extension fields are bytes and a palindromic k-mer occurs only as a node of its own
+   ([pal_ends]; not part of graph_ok).  [links_sym] IS C03_edges_symmetric read on extension bits.  With C03's
+   [exts_resolvable] in addition ([valid_graph]) the graph is [rvalid]. *)
+From DBG Require Spec.EdgeSpec Proofs.CompressGraphOk Proofs.RecompLooseGraphOk.
+
+Theorem C09X_graph_ok_rvalid_loose : forall D K stranded (g : graph D),
+  EdgeSpec.graph_ok D K stranded g -> (forall n, In n g -> n_exts D n < 256) -> pal_ends D K stranded g ->
+  rvalid_loose D K stranded g.
+Proof. exact RecompLooseGraphOk.graph_ok_rvalid_loose. Qed.
+Print Assumptions C09X_graph_ok_rvalid_loose.
+
+Theorem C09X_valid_graph_rvalid : forall D K stranded (g : graph D),
+  EdgeSpec.valid_graph D K stranded g -> (forall n, In n g -> n_exts D n < 256) -> pal_ends D K stranded g ->
+  rvalid D K stranded g.
+Proof. exact RecompLooseGraphOk.valid_graph_rvalid. Qed.
+Print Assumptions C09X_valid_graph_rvalid.
+
+(* Every graph that compress_kmers builds from a table satisfying C01's hypotheses ([tbl_ok], [exts_sym]) and
+   [exts_sym_pal] (Proofs/CompressGraphOk.v) is loosely valid - the table may well carry extensions towards absent
+   (count-filtered) k-mers: [exts_sym] only speaks about extensions whose target is present.  Hence compress_graph, with
+   any censor list, returns on it and all C09X theorems apply. *)
+Theorem C09X_compress_kmers_rvalid_loose : forall D reduce join K stranded, (1 <= K)%nat -> forall T : Compress.table D,
+  CompressSpec.tbl_ok D K stranded T -> CompressSpec.exts_sym D stranded T -> CompressGraphOk.exts_sym_pal D stranded T ->
+  exists nodes, Compress.compress_kmers D reduce join stranded T = Some nodes /\
+    EdgeSpec.graph_ok D K stranded nodes /\ rvalid_loose D K stranded nodes.
+Proof. exact RecompLooseGraphOk.compress_kmers_rvalid_loose. Qed.
+Print Assumptions C09X_compress_kmers_rvalid_loose.
+
+Theorem C09X_compress_kmers_then_compress_graph : forall D reduce join K stranded, (1 <= K)%nat ->
+  (forall a b, join a b = join b a) -> forall T : Compress.table D,
+  CompressSpec.tbl_ok D K stranded T -> CompressSpec.exts_sym D stranded T -> CompressGraphOk.exts_sym_pal D stranded T ->
+  exists nodes, Compress.compress_kmers D reduce join stranded T = Some nodes /\
+    forall censor, exists out paths,
+      compress_graph_paths D reduce join K stranded nodes censor = Some (out, paths).
+Proof. exact RecompLooseGraphOk.compress_kmers_then_compress_graph. Qed.
+Print Assumptions C09X_compress_kmers_then_compress_graph.
+
+(* non-vacuity: the table of C09_nonvacuous_singleton with the entry of CTCC (index 7) REMOVED after the extensions
+   were derived - a count-filtered table: ACTC keeps its extension towards CTCC, CCGA (stored as TCGG) the one back.
+   The hypotheses hold; compress_kmers breaks the unitig AACTCCGA into AACTC and TCGGA, whose extension bytes 34 and 64
+   carry the dangling bits: the graph is loosely valid (by the theorem) and not valid; compress_graph returns its pruned
+   graph (bytes 2 and 0). *)
+Definition C09X_ex_table : Compress.table rpay := firstn 7 C09_ex_table ++ skipn 8 C09_ex_table.
+Definition C09X_ex_graph : graph rpay :=
+  [ ([0;1;2;3], 129, (0,[0])); ([0;0;1;2], 130, (0,[1])); ([3;2;1;0], 24, (0,[2])); ([2;1;0;0;1], 200, (0,[3;4]));
+    ([0;0;1;3;1], 34, (0,[5;6])); ([3;1;2;2;0], 64, (0,[8;9])) ].
+Example C09X_nonvacuous_table :
+  CompressSpec.tbl_ok rpay 4 false C09X_ex_table /\ CompressSpec.exts_sym rpay false C09X_ex_table /\
+  CompressGraphOk.exts_sym_pal rpay false C09X_ex_table /\
+  Compress.compress_kmers rpay rpay_reduce (rpay_join 0) false C09X_ex_table = Some C09X_ex_graph /\
+  rvalid_loose rpay 4 false C09X_ex_graph /\ dangling rpay 4 false C09X_ex_graph 4 DRight 1 /\
+  ~ rvalid rpay 4 false C09X_ex_graph /\
+  compress_graph rpay rpay_reduce (rpay_join 0) 4 false C09X_ex_graph None = prune rpay 4 false C09X_ex_graph /\
+  prune rpay 4 false C09X_ex_graph =
+    Some [ ([0;1;2;3], 129, (0,[0])); ([0;0;1;2], 130, (0,[1])); ([3;2;1;0], 24, (0,[2])); ([2;1;0;0;1], 200, (0,[3;4]));
+           ([0;0;1;3;1], 2, (0,[5;6])); ([3;1;2;2;0], 0, (0,[8;9])) ].
+Proof.
+  assert (H1 : CompressSpec.tbl_ok rpay 4 false C09X_ex_table)
+    by (apply CompressHypProofs.tbl_okb_sound; vm_compute; reflexivity).
+  assert (H2 : CompressSpec.exts_sym rpay false C09X_ex_table)
+    by (apply CompressHypProofs.exts_symb_sound; vm_compute; reflexivity).
+  assert (H3 : CompressGraphOk.exts_sym_pal rpay false C09X_ex_table)
+    by (apply CompressGraphOk.exts_sym_palb_sound; vm_compute; reflexivity).
+  assert (H4 : Compress.compress_kmers rpay rpay_reduce (rpay_join 0) false C09X_ex_table = Some C09X_ex_graph)
+    by (vm_compute; reflexivity).
+  split; [exact H1|]. split; [exact H2|]. split; [exact H3|]. split; [exact H4|].
+  split.
+  { destruct (C09X_compress_kmers_rvalid_loose rpay rpay_reduce (rpay_join 0) 4 false (le_n_S _ _ (Nat.le_0_l _))
+                C09X_ex_table H1 H2 H3) as (nodes & Hc & _ & V).
+    rewrite H4 in Hc. injection Hc as <-. exact V. }
+  split; [eexists; split; [reflexivity|]; split; vm_compute; reflexivity|].
+  split.
+  { intros (_ & _ & _ & _ & Hres & _).
+    apply (Hres 4%nat DRight 1 ([0;0;1;3;1], 34, (0,[5;6]))); [reflexivity | cbn; auto | vm_compute; reflexivity | vm_compute; reflexivity]. }
+  split; vm_compute; reflexivity.
+Qed.
+Print Assumptions C09X_nonvacuous_table.
